@@ -107,6 +107,39 @@ ParseSpec(s0) ==
           IN IF ~ex.ok \/ Len(digs) = 0 \/ ~AllDigits(digs) THEN Reject
              ELSE IF ex.big THEN Accept(FIN, neg, FromDigits(digs), ex.v * 10000000, TRUE)
              ELSE [Accept(FIN, neg, FromDigits(digs), ex.v - Len(fpart), FALSE) EXCEPT !.xe = ex.v]
+\* ---------------- the same grammar as a deterministic automaton ----------------
+\* An independent formulation (state' = Step(state, ch)); MC_Text checks that it accepts
+\* exactly the strings ParseSpec accepts.  States: records [s, i] - s the phase, i the
+\* position inside a keyword.
+KwInf == Str("infinity")
+St(s, i) == [s |-> s, i |-> i]
+Dead == St("dead", 0)
+Step(st, ch0) ==
+  LET ch == Lower(ch0) IN
+  CASE st.s = "start" -> IF ch0 \in {43, 45} THEN St("signed", 0) ELSE
+                         IF IsDigit(ch) THEN St("int", 0) ELSE IF ch = 46 THEN St("dot0", 0)
+                         ELSE IF ch = 105 THEN St("inf", 1) ELSE IF ch = 110 THEN St("nan", 1) ELSE IF ch = 115 THEN St("snan", 1) ELSE Dead
+    [] st.s = "signed" -> IF IsDigit(ch) THEN St("int", 0) ELSE IF ch = 46 THEN St("dot0", 0)
+                         ELSE IF ch = 105 THEN St("inf", 1) ELSE IF ch = 110 THEN St("nan", 1) ELSE IF ch = 115 THEN St("snan", 1) ELSE Dead
+    [] st.s = "int"   -> IF IsDigit(ch) THEN st ELSE IF ch = 46 THEN St("frac", 0) ELSE IF ch = 101 THEN St("e", 0) ELSE Dead
+    [] st.s = "dot0"  -> IF IsDigit(ch) THEN St("frac", 0) ELSE Dead                     \* "." needs a digit after it
+    [] st.s = "frac"  -> IF IsDigit(ch) THEN st ELSE IF ch = 101 THEN St("e", 0) ELSE Dead
+    [] st.s = "e"     -> IF ch0 \in {43, 45} THEN St("esign", 0) ELSE IF IsDigit(ch) THEN St("exp", 0) ELSE Dead
+    [] st.s = "esign" -> IF IsDigit(ch) THEN St("exp", 0) ELSE Dead
+    [] st.s = "exp"   -> IF IsDigit(ch) THEN st ELSE Dead
+    [] st.s = "inf"   -> IF st.i < 8 /\ ch = KwInf[st.i + 1] THEN St("inf", st.i + 1) ELSE Dead
+    [] st.s = "nan"   -> IF st.i < 3 THEN (IF ch = Str("nan")[st.i + 1] THEN St("nan", st.i + 1) ELSE Dead)
+                         ELSE IF IsDigit(ch) THEN st ELSE Dead
+    [] st.s = "snan"  -> IF st.i < 4 THEN (IF ch = Str("snan")[st.i + 1] THEN St("snan", st.i + 1) ELSE Dead)
+                         ELSE IF IsDigit(ch) THEN st ELSE Dead
+    [] OTHER -> Dead
+Accepting(st) == \/ st.s \in {"int", "frac", "exp"}
+                 \/ (st.s = "inf" /\ st.i \in {3, 8})
+                 \/ (st.s = "nan" /\ st.i = 3) \/ (st.s = "snan" /\ st.i = 4)
+RECURSIVE RunFrom(_, _, _)
+RunFrom(st, s, i) == IF i > Len(s) THEN st ELSE RunFrom(Step(st, s[i]), s, i + 1)
+AutomatonAccepts(s) == Accepting(RunFrom(St("start", 0), s, 1))
+
 \* the limits of C14: "inside": must be accepted; "outside": must be rejected; "band": either (DESIGN 3.4-6)
 LimitClass(p) ==
   IF p.f # FIN THEN "inside"
